@@ -66,8 +66,18 @@ func VerifStart(inputChan, outputChan chan *models.Item, client, proxied *warc.C
 	return nil
 }
 
-// VerifArchive runs the real archive() on a seed.
-func VerifArchive(seed *models.Item) { archive("verif", seed) }
-
 // VerifBucketManager exposes the limiter (nil when rate limiting is off).
 func VerifBucketManager() *ratelimiter.BucketManager { return globalBucketManager }
+
+// VerifCloseIdleConnections closes the idle keep-alive connections of the WARC-writing clients.
+func VerifCloseIdleConnections() {
+	if globalArchiver == nil {
+		return
+	}
+	if globalArchiver.Client != nil {
+		globalArchiver.Client.CloseIdleConnections()
+	}
+	if globalArchiver.ClientWithProxy != nil {
+		globalArchiver.ClientWithProxy.CloseIdleConnections()
+	}
+}
